@@ -549,6 +549,23 @@ func (in *Interp) joinValueH(a, b Value, t types.Type, ha, hb *Heap, pend *[]Lin
 			}
 		}
 	}
+	if ia, ok := a.(IntV); ok {
+		if ib, ok := b.(IntV); ok && t != nil {
+			// carry the common constant lower bound (when non-negative) over to the fresh value
+			res := in.unknownOf(t, "join", false)
+			if rv, ok := res.(IntV); ok {
+				la, lb := glb(ha, ia.L), glb(hb, ib.L)
+				m := la
+				if lb < m {
+					m = lb
+				}
+				if m >= 0 {
+					*pend = append(*pend, rv.L.AddC(-m))
+				}
+			}
+			return res
+		}
+	}
 	va, ok1 := a.(SliceV)
 	vb, ok2 := b.(SliceV)
 	if ok1 && ok2 && va.Str == nil && vb.Str == nil && !va.IsString && !vb.IsString {
@@ -2408,7 +2425,14 @@ func (x *fnExec) slice(s *State, t *ssa.Slice) Value {
 		} else if sv.IsString {
 			what = "slice: high <= len"
 		}
-		in.check(s, t, "slice-hi", mx.Sub(hi), what)
+		if inputRule && t.Max == nil && !s.h.entails(mx.Sub(hi)) && s.h.entails(sv.Cap.Sub(hi)) {
+			// within capacity but possibly past len: capacity dependence, not a run-time panic
+			if in.Cfg.CapRule {
+				in.emit(Finding{Site: t, Kind: "cap", OK: false, Detail: "slice of an input-derived view extends past len into spare capacity (high <= cap holds, high <= len does not): the result depends on bytes outside the frame"})
+			}
+		} else {
+			in.check(s, t, "slice-hi", mx.Sub(hi), what)
+		}
 	}
 	res := SliceV{Reg: sv.Reg, Off: sv.Off.Add(lo), Len: hi.Sub(lo), Cap: sv.Cap.Sub(lo), IsString: sv.IsString}
 	if t.Max != nil {
